@@ -404,16 +404,342 @@ def malformed_case(rng, name):
     return Case(name, ops, tags={"mods": mods, "malformed": True})
 
 
+def _track_serials(ops):
+    """serial bookkeeping from the input alone: yields per op index the map id -> (current serial, stale serials)"""
+    serial = 0
+    cur, stale = {}, {}
+    states = []
+    for op in ops:
+        states.append((dict(cur), {k: list(v) for k, v in stale.items()}, serial))
+        f = op.split(" ")
+        if f[0] != "in" or len(f) < 2:
+            continue
+        for raw in unhx(f[1]).split(b"\n"):
+            toks = raw.split()
+            if len(toks) >= 2:
+                try:
+                    cid = int(toks[0])
+                except ValueError:
+                    continue
+                cmd = toks[1][:1]
+                if cmd == b"C" and len(toks) >= 6 and not any(t.startswith(b":") for t in toks[2:5]):
+                    serial += 1
+                    if cid in cur:
+                        stale.setdefault(cid, []).append(cur[cid])
+                    cur[cid] = serial
+                elif cmd in (b"D", b"T") and cid in cur:
+                    stale.setdefault(cid, []).append(cur.pop(cid))
+    states.append((dict(cur), {k: list(v) for k, v in stale.items()}, serial))
+    return states
+
+
+def stray_replies(rng, ops, p, cfg):
+    """reply lines that are stray at position p by construction"""
+    cur, stale, serial = _track_serials(ops)[p]
+    names = [s[0] for s in cfg.services] or ["login.srv"]
+    texts = ["OK", "OK acct", "NO go away", "AGAIN later", "MORE chal", "junk"]
+    out = []
+    ids = list(cur) + list(stale) or [5]
+    for _ in range(3):
+        cid = rng.choice(ids)
+        idh = "%x" % (cid & 0xffffffff)
+        kind = rng.choice(["X", "X", "X", "x"])
+        r = rng.random()
+        if r < 0.2 and stale.get(cid):
+            tag, svc = "%s_%x" % (idh, rng.choice(stale[cid])), rng.choice(names)
+        elif r < 0.35:
+            tag, svc = "%s_%x" % (idh, serial + rng.randint(1, 9)), rng.choice(names)
+        elif r < 0.5:
+            tag, svc = rng.choice(["zz", "_", idh + "_", "_1", idh + "_1x", idh + "__1", "-" + idh + "_1", idh]), rng.choice(names)
+        elif r < 0.65 and cid in cur:
+            tag, svc = "1%08x_1%08x" % (cid & 0xffffffff, cur[cid]), rng.choice(names)
+        elif r < 0.8 and cid in cur:
+            tag, svc = "%s_%x" % (idh, cur[cid]), rng.choice(["nosuch.srv", names[0].upper(), names[0] + "x", ""])
+        else:
+            tag, svc = "%s_%x" % (idh, cur.get(cid, 0) + 1), rng.choice(names)
+        out.append("-1 %s %s %s :%s" % (kind, svc or "x", tag, rng.choice(texts)))
+    return out
+
+
+JUNK = [b"", b"99 N host", b"99 P :+x a b", b"99 D", b"99 H", b"-1 ? bogus", b"-1 ?", b"99 X a b :c", b"-1 X a", b"-1 x a b",
+        b"5 Z", b"5 %", b"-1 E a b", b"-1 M srv 5", b"98 C 1.2.3.4", b"98 C", b"  ", b"4294967395 D", b"99999999999999999999 H"]
+
+
 def gen_cases(prop, tier, seed):
     rng = core.rng_for(seed, "proto-" + prop)
-    n = 600 if tier == "quick" else 30000
+    quick = tier == "quick"
     cases = []
+    if prop == "C04":
+        n = 250 if quick else 6000
+        for i in range(n):
+            base = scenario(rng, "c04/%d/base" % i, mods=rng.choice(["xquery", "class"]))
+            base.tags.update(group="c04/%d" % i, role="base")
+            cases.append(base)
+            body = base.body()
+            hl = header_len(base) - 1
+            positions = [rng.randint(hl, len(body) - 1) for _ in range(2 if quick else 6)]
+            cfgop = [l for l in body if l.startswith("conf ")][0]
+            cfg = _cfg_from_fields(cfgop)
+            for k, p in enumerate(positions):
+                for j, r in enumerate(stray_replies(rng, body, p, cfg)):
+                    lines = body[:p] + [inl(r)] + body[p:]
+                    cases.append(Case("c04/%d/ins%d_%d" % (i, k, j), lines,
+                                      tags={"group": "c04/%d" % i, "role": "variant", "pos": p, "mods": base.tags["mods"]}))
+        return cases
+    if prop == "C07":
+        n = 150 if quick else 4000
+        for i in range(n):
+            mods = rng.choice(["xquery", "class", "core"])
+            cfg = rand_cfg(rng, mods)
+            ids = rng.sample([1, 2, 5, 7, 300, 65535], rng.choice([2, 3, 4]))
+            scripts = {cid: client_script(rng, cid, cfg, mods) for cid in ids}
+            # C07 quantifies over clients on distinct ids whose own order is preserved
+            for k in range(2 if quick else 4):
+                ops = header(mods, cfg) + render_schedule(rng, scripts) + ["eof"]
+                cases.append(Case("c07/%d/all%d" % (i, k), ops, tags={"group": "c07/%d" % i, "role": "all", "mods": mods}))
+            for cid in ids:
+                ops = header(mods, cfg) + render_schedule(rng, {cid: scripts[cid]}) + ["eof"]
+                cases.append(Case("c07/%d/only%d" % (i, cid), ops, tags={"group": "c07/%d" % i, "role": "only", "cid": cid, "mods": mods}))
+        return cases
+    if prop == "C08":
+        n = 250 if quick else 8000
+        for i in range(n):
+            if i % 3 == 2:
+                cases.append(malformed_case(rng, "mal/%d" % i))
+                continue
+            base = scenario(rng, "c08/%d/base" % i)
+            # chunking and junk variants are compared on the `in` stream only: no timeouts in between
+            body = [l for l in base.body() if not l.startswith("timeout ")]
+            base = Case(base.name, body, tags=dict(base.tags, group="c08/%d" % i, role="base"))
+            cases.append(base)
+            hl = header_len(base) - 1
+            head, ins = body[:hl], [l for l in body[hl:] if l.startswith("in ")]
+            stream = b"".join(unhx(l.split(" ")[1]) for l in ins)
+            # every-which-way segmentation of the same byte stream
+            for k in range(2):
+                cuts = sorted(set(rng.randint(0, len(stream)) for _ in range(rng.choice([1, 3, 10, 40]))))
+                chunks, prev = [], 0
+                for c in cuts + [len(stream)]:
+                    if c > prev:
+                        chunks.append(stream[prev:c])
+                        prev = c
+                cases.append(Case("c08/%d/chunk%d" % (i, k), head + ["in " + hx(c) for c in chunks] + ["eof"],
+                                  tags={"group": "c08/%d" % i, "role": "chunk"}))
+            # peer death at a random byte: a prefix of the stream, then end of input
+            cut = rng.randint(0, len(stream))
+            cases.append(Case("c08/%d/prefix" % i, head + ["in " + hx(stream[:cut])] + ["eof"],
+                              tags={"group": "c08/%d" % i, "role": "prefix", "cut": cut}))
+            # junk lines mixed in
+            mixed, marks = [], []
+            for l in ins:
+                if rng.random() < 0.3:
+                    mixed.append(inl(rng.choice(JUNK)))
+                    marks.append(len(mixed) - 1)
+                mixed.append(l)
+            cases.append(Case("c08/%d/junk" % i, head + mixed + ["eof"],
+                              tags={"group": "c08/%d" % i, "role": "junk", "junk": marks, "hl": hl}))
+        return cases
+    if prop == "C17":
+        n = 120 if quick else 3000
+        for i in range(n):
+            mods = rng.choice(["xquery", "class", "class"])
+            old = rand_cfg(rng, mods, timeout=0)
+            new = mutate_cfg(rng, old, mods)
+            probe = {cid: client_script(rng, cid, new, mods) for cid in rng.sample([1, 2, 5, 7], 2)}
+            pops = render_schedule(rng, probe) + [inl("-1 ? :config")]
+            cases.append(Case("c17/%d/reload" % i, header(mods, old) + [new.op("reload")] + pops + ["eof"],
+                              tags={"group": "c17/%d" % i, "role": "reload", "mods": mods}))
+            cases.append(Case("c17/%d/fresh" % i, header(mods, new) + pops + ["eof"],
+                              tags={"group": "c17/%d" % i, "role": "fresh", "mods": mods}))
+        return cases
+    n = 600 if quick else 30000
     for i in range(n):
-        if i % 5 == 4:
+        if i % 5 == 4 and prop not in ("C06", "C11"):
             cases.append(malformed_case(rng, "mal/%d" % i))
+        elif prop == "C11":
+            cases.append(scenario(rng, "scn/%d" % i, mods="class"))
+        elif prop == "C06":
+            cases.append(scenario(rng, "scn/%d" % i, mods=rng.choice(["xquery", "class"])))
         else:
             cases.append(scenario(rng, "scn/%d" % i))
     return cases
+
+
+def mutate_cfg(rng, cfg, mods):
+    """a related configuration: add / remove / change entries in place"""
+    services = list(cfg.services)
+    rules = [(n, list(kv)) for n, kv in cfg.rules]
+    for _ in range(rng.choice([1, 1, 2, 3])):
+        r = rng.random()
+        if r < 0.2 and services:
+            services.pop(rng.randrange(len(services)))
+        elif r < 0.4:
+            free = [n for n in SVC_NAMES if n not in [s[0] for s in services]]
+            if free:
+                services.insert(rng.randint(0, len(services)), (rng.choice(free), rng.choice(SVC_TYPES)))
+        elif r < 0.6 and services:
+            k = rng.randrange(len(services))
+            services[k] = (services[k][0], rng.choice(SVC_TYPES))
+        elif mods == "class" and r < 0.7 and rules:
+            rules.pop(rng.randrange(len(rules)))
+        elif mods == "class" and r < 0.8:
+            free = [n for n in ["a", "B", "c", "Dd", "e"] if n not in [x[0] for x in rules]]
+            if free:
+                rules.append((rng.choice(free), [("class", "new-class")]))
+        elif mods == "class" and rules:
+            k = rng.randrange(len(rules))
+            n, kv = rules[k]
+            kv = [x for x in kv if x[0] != "class"] + [("class", rng.choice(["edited", "other"]))]
+            if rng.random() < 0.5:
+                kv = [x for x in kv if x[0] != "hostname"] + [("hostname", rng.choice(["*", "nomatch", "host.example"]))]
+            rules[k] = (n, kv)
+    return Cfg(timeout=cfg.timeout, services=services, rules=rules)
+
+
+def _cfg_from_fields(confop):
+    services = []
+    for f in confop.split(" ")[2:]:
+        if f.startswith("s="):
+            n, v = f[2:].split(":")
+            services.append((unhx(n).decode("latin-1"), unhx(v).decode("latin-1")))
+    return Cfg(services=services)
+
+
+# ------------------------------------------------------------------ cross-case judges (implementation vs implementation)
+
+def _outs(recs):
+    return [canon_record(r) for r in recs]
+
+
+def _lines_of(cr):
+    if cr[0] == "out":
+        return list(cr[1])
+    if cr[0] == "rc":
+        return list(cr[2])
+    if cr[0] == "exit":
+        return list(cr[3])
+    return []
+
+
+TAG = re.compile(rb"^X (\S+) ([0-9a-f]+)_([0-9a-f]+) ")
+CLIENT = re.compile(rb"^[oUuNIMCkdDR] (-?\d+) ")
+
+
+def conversation(recs, cid):
+    """the lines naming client cid, serials replaced by per-id ordinals"""
+    seen = []
+    conv = []
+    for r in recs:
+        for l in _lines_of(canon_record(r)):
+            m = TAG.match(l)
+            if m:
+                v = int(m.group(2), 16)
+                v = v - (1 << 32) if v >= (1 << 31) else v
+                if v == cid:
+                    ser = m.group(3)
+                    if ser not in seen:
+                        seen.append(ser)
+                    conv.append(l[:m.start(3)] + b"#%d" % seen.index(ser) + l[m.end(3):])
+                continue
+            m = CLIENT.match(l)
+            if m and int(m.group(1)) == cid:
+                conv.append(l)
+    return conv
+
+
+def judge_all(prop, cases, impl, model, spec):
+    from .core import Finding
+    groups = {}
+    for c, ir in zip(cases, impl):
+        g = c.tags.get("group")
+        if g:
+            groups.setdefault(g, []).append((c, ir))
+    out = []
+
+    def finding(c, idx, why, members):
+        f = Finding(c, "judge", idx, why, impl=[r for _c, r in members if _c is c][0], name=spec_name(prop))
+        f.group = [m[0] for m in members]
+        out.append(f)
+
+    for g, members in groups.items():
+        if prop == "C04":
+            base = [m for m in members if m[0].tags.get("role") == "base"]
+            if not base:
+                continue
+            b_out = _outs(base[0][1])
+            for c, ir in members:
+                if c.tags.get("role") != "variant":
+                    continue
+                p = c.tags["pos"]
+                v_out = _outs(ir)
+                if p < len(v_out) and _lines_of(v_out[p]):
+                    finding(c, p, "C04: a stray reply produced output %r" % (_lines_of(v_out[p])[:2],), [base[0], (c, ir)])
+                elif v_out[:p] + v_out[p + 1:] != b_out:
+                    d = core.first_diff(v_out[:p] + v_out[p + 1:], b_out)
+                    finding(c, d, "C04: behaviour after a stray reply differs from the history without it", [base[0], (c, ir)])
+        elif prop == "C07":
+            alls = [m for m in members if m[0].tags.get("role") == "all"]
+            for c, ir in members:
+                if c.tags.get("role") != "only":
+                    continue
+                cid = c.tags["cid"]
+                alone = conversation(ir, cid)
+                for ca, ira in alls:
+                    if conversation(ira, cid) != alone:
+                        finding(ca, 0, "C07: the conversation about client %d depends on other clients' traffic" % cid, [(c, ir), (ca, ira)])
+                        break
+        elif prop == "C08":
+            base = [m for m in members if m[0].tags.get("role") == "base"]
+            if not base:
+                continue
+            hl = header_len(base[0][0]) - 1
+            b_lines = [l for cr in _outs(base[0][1])[hl:] for l in _lines_of(cr)]
+            for c, ir in members:
+                role = c.tags.get("role")
+                if role == "chunk":
+                    v_lines = [l for cr in _outs(ir)[hl:] for l in _lines_of(cr)]
+                    if v_lines != b_lines:
+                        finding(c, 0, "C08: the same byte stream in different read() chunks is treated differently", [base[0], (c, ir)])
+                elif role == "junk":
+                    marks = set(m + hl for m in c.tags["junk"])
+                    v = _outs(ir)
+                    kept = [l for i, cr in enumerate(v) if i >= hl and i not in marks for l in _lines_of(cr)]
+                    bad = [l for i in marks if i < len(v) for l in _lines_of(v[i]) if CLIENT.match(l) or l.startswith(b"X ")]
+                    if bad:
+                        finding(c, min(marks), "C08: a junk line produced a client-directed message %r" % (bad[:1],), [base[0], (c, ir)])
+                    elif kept != b_lines:
+                        finding(c, 0, "C08: well-formed lines are treated differently when junk lines are mixed in", [base[0], (c, ir)])
+        elif prop == "C17":
+            rel = [m for m in members if m[0].tags.get("role") == "reload"]
+            fre = [m for m in members if m[0].tags.get("role") == "fresh"]
+            if rel and fre:
+                hl = header_len(rel[0][0]) - 1
+                a = _probe_view(rel[0][1][hl + 1:])
+                bb = _probe_view(fre[0][1][hl:])
+                if a != bb:
+                    d = core.first_diff(a, bb)
+                    finding(rel[0][0], (d or 0) + hl + 1, "C17: after the reload the daemon does not behave like one freshly started on the new file: %r vs %r" % (
+                        a[d] if d is not None and d < len(a) else None, bb[d] if d is not None and d < len(bb) else None), [rel[0], fre[0]])
+    return out
+
+
+SERIAL = re.compile(rb"^(X \S+ [0-9a-f]+_)([0-9a-f]+) ")
+
+
+def _probe_view(recs):
+    """per-step outputs up to serials, statistics counters and the order of X lines within a step"""
+    view = []
+    for r in recs:
+        ls = []
+        for l in _lines_of(canon_record(r)):
+            if l.startswith(b"S "):
+                continue
+            l = SERIAL.sub(lambda m: m.group(1) + b"# ", l)
+            ls.append(l)
+        # slot order is not observable behaviour: X lines of one step and the `A xquery` listing
+        xs = sorted(l for l in ls if l.startswith(b"X ") or l.startswith(b"A xquery "))
+        view.append(tuple(xs) + tuple(l for l in ls if not (l.startswith(b"X ") or l.startswith(b"A xquery "))))
+    return view
 
 
 # ------------------------------------------------------------------ projection / canonicalisation
